@@ -45,7 +45,8 @@ def _evaluate(pid, tier, model, quiet):
 def _new_findings(ctx):
     known = {(k["rule"], k["instance"], k.get("statement", "")) for k in load_known()
              if k.get("property") == ctx.pid and k.get("status") == "known"}
-    return [o for o in ctx.findings if Ctx.key(o) not in known and (o["rule"], o["instance"], "*") not in known]
+    return [o for o in ctx.findings if Ctx.key(o) not in known and (o["rule"], o["instance"], "*") not in known
+            and not any(k_[0] == o["rule"] and k_[2] == "*" and k_[1].startswith("*") and o["instance"].endswith(k_[1][1:]) for k_ in known)]
 
 
 def run_property(pid, tier, model=None, quiet=False, write=True, model_cache=None):
